@@ -59,6 +59,7 @@ func main() {
 	timed("secBlur", func() { secBlur(r) })
 	timed("secSmoothers", func() { secSmoothers(r) })
 	timed("secFlattenBase", func() { secFlattenBase(r) })
+	timed("secSmoothSliver", func() { secSmoothSliver(r) })
 	timed("secARAP", func() { secARAP(r) })
 	timed("secARAPSeq", func() { secARAPSeq(r) })
 	timed("sec2D", func() { sec2D(r) })
